@@ -17,7 +17,8 @@ RULE = ('seeded bodies of 1..18 packets over all ten type digits (0..9) x '
         'invalid type / undecodable piece, delivered by POST, by WebSocket '
         'frames, and by POST during an upgrade handshake, to one of two '
         'sessions, plus bodies for unknown / closed / rejected sessions; both '
-        'servers x {synchronous, background} handlers; threaded server under '
+        'servers x {synchronous, background} handlers x {well-behaved, failing '
+        'with Exception / BaseException at seeded indices}; threaded server under '
         'seeded random schedules. distinct = distinct (server, handler mode, '
         'path, abstract body shape) where the shape is the sequence of packet '
         'classes m/p/u/c/i/g')
@@ -27,7 +28,7 @@ ASSUMPTIONS = ['a poll is kept pending on polling sessions (as real clients '
                'liveness only (the hang itself is C15\'s subject)',
                'after an undecodable WebSocket frame the fate of the '
                'connection is not judged here']
-REQUIRED = ['bodies', 'message_exactly_once', 'invalid_type', 'close_packet',
+REQUIRED = ['bodies', 'failing_handlers', 'message_exactly_once', 'invalid_type', 'close_packet',
             'whole_body_rejected', 'dead_session_body', 'upgrade_noop']
 SHARD_TIMEOUT = {'quick': 400, 'thorough': 3000}
 
@@ -65,7 +66,19 @@ def run_case(rec, case):
     path = rng.choice(['post', 'post', 'ws', 'ws', 'ws-upgraded',
                        'post-mid-upgrade', 'dead'])
     rec.evaluations += 1
+    # a share of the cases has message handlers that fail (Exception or
+    # BaseException-only) at seeded event indices: every other packet must
+    # still be processed exactly once, in order
+    hcfg = {}
+    if rng.random() < 0.3:
+        hcfg = {'boom': {'message:%d' % rng.randint(0, 6): True
+                         for _ in range(rng.randint(1, 3))},
+                'boom_base': rng.random() < 0.5}
+        if rng.random() < 0.2:
+            hcfg['boom']['message:*'] = True
+        rec.count('failing_handlers')
     sim = scen.make_sim(srv, server_kwargs={'async_handlers': asyncm},
+                        handler_cfg=hcfg,
                         policy='random', seed=rng.randrange(1 << 30),
                         yield_prob=rng.choice([0.0, 0.3]),
                         async_handlers_coro=rng.random() < 0.7)
@@ -73,7 +86,8 @@ def run_case(rec, case):
 
     def V(key, msg):
         rec.viol(key, msg + ' | server=%s background_handlers=%r path=%s '
-                 'body=%r' % (srv, asyncm, path, case.get('_body')), case)
+                 'failing_handlers=%r body=%r' % (
+                     srv, asyncm, path, hcfg, case.get('_body')), case)
     try:
         _run(rec, rng, sim, R, srv, asyncm, path, V, case)
     finally:
